@@ -53,7 +53,7 @@ func flag01(s string) bool {
 	case "0":
 		return false
 	}
-	panic("bad flag in case line: " + s)
+	panic(badCase("bad flag in case line: " + s))
 }
 
 func evalC19(op string, args []string) string {
@@ -136,7 +136,7 @@ func evalC19Inner(op string, args []string, A func(int) []byte) string {
 	case "startkey":
 		n, err := strconv.ParseUint(args[1], 10, 32)
 		if err != nil {
-			panic("bad uint in case line: " + args[1])
+			panic(badCase("bad uint in case line: " + args[1]))
 		}
 		r, err := rfc3079.GetAsymmetricStartKey(A(0), rfc3079.KeyLength(n), flag01(args[2]))
 		return held(r, err, func() {
